@@ -128,6 +128,13 @@ Theorem C08_int_getter_bounds_exact : forall p name required mn mx x,
 Proof. exact int_getter_bounds_exact. Qed.
 Print Assumptions C08_int_getter_bounds_exact.
 
+(* the getters are pure functions of the mapping: whatever sequence of getters runs, req.params
+   afterwards is the mapping that was parsed (only store= dicts are written) *)
+Theorem C08_getters_do_not_mutate_params : forall fixed p cs,
+  snd (do_calls fixed p cs) = p /\ fst (do_calls fixed p cs) = map (fun c => fst (do_call fixed p c)) cs.
+Proof. exact getters_pure. Qed.
+Print Assumptions C08_getters_do_not_mutate_params.
+
 (* ---- to_query_str *)
 Theorem C08_qs_roundtrip : forall m cdl csv,
   canonical cdl m = true -> mapping_scalar m = true -> (cdl = true -> csv = true) ->
